@@ -1,3 +1,4 @@
 pub mod adoc;
 pub mod genes;
 pub mod hist;
+pub mod mutate;
